@@ -87,6 +87,11 @@ def check(ctx):
                               "mismatches": rj["mismatches"], "ops": rj["ops"]}
     ctx.evaluations += rj["steps"]
     ctx.distinct += st["edges"]
+    ctx.cov["replay_ring"]["drifted_programs"] = rj["drifted_programs"]
+    if rj["drifted_programs"]:
+        ctx.notes.append("%d replayed programs left the as-built model in (cap, head, tail) (growth policy / placement) while contents, len, free "
+                         "and the position invariants stayed right; they were continued without predictions. Example: %s"
+                         % (rj["drifted_programs"], json.dumps(rj["drift_examples"][:1])))
     for m in rj["first"]:
         ctx.violation("ring model replay: %s(%s) -> %s" % (m["op"], m["args"], "; ".join(m["errors"])), m)
     with open(progs) as f:
